@@ -1,4 +1,4 @@
 SPECIFICATION Spec
-INVARIANTS StepOK EndOK
+INVARIANTS StepOK EndOK Design
 POSTCONDITION AcceptedAll
 CHECK_DEADLOCK FALSE
